@@ -17,8 +17,9 @@
       (the Go `ReadFrom` methods decode *into* an existing object);
     * fixed-width blocks are read with read-full semantics (Go: one `Read` call);
     * running out of input is `none` (Go: sometimes a panic / unbounded recursion).
-  The receiver-dependent behaviour of the Go decoders is modelled separately by `decInto`
-  (`Model/CodecRecv.lean`-style section at the end of this file).
+  The receiver-dependent behaviour of the Go decoders (state of the object decoded INTO
+  leaking into the result) is modelled separately by `decInto` (section "The Go decoders
+  decode into a receiver" below; theorems in `Proofs/CodecRecv.lean`).
 
   Core Lean only; executable (linked into the driver).
 -/
@@ -408,6 +409,52 @@ def Clean : Fmt → Prop
   | .tailIf keep a _ b => keep = false ∧ Clean a ∧ Clean b
   | _ => True
 
+/-! ## What the Go decoder allocates
+
+  `structs.Vector/Matrix.ReadFrom` call `make([]T, size)` and `structs.Map.ReadFrom` calls
+  `make(Map, size)` with the count just read, BEFORE reading any element and without
+  comparing it with the input that is left (utils/structs/vector.go:177, matrix.go:134,
+  map.go:111; core/rlwe/params.go:715 for the JSON block). `allocs f bs` lists these
+  requests (in elements) in the order the decoder issues them on input `bs`, up to the
+  point where it stops. -/
+
+def allocsN (d : List Nat → Option (Val × List Nat)) (al : List Nat → List Nat) :
+    Nat → List Nat → List Nat
+  | 0, _ => []
+  | n + 1, s =>
+    al s ++ (match d s with
+      | none => []
+      | some (_, s') => allocsN d al n s')
+
+def allocs : Fmt → List Nat → List Nat
+  | .framed pre f _, s =>
+    match readFlat pre.length s with
+    | none => []
+    | some (bs, s1) => if bs = pre then allocs f s1 else []
+  | .pair a b, s =>
+    allocs a s ++ (match dec a s with
+      | none => []
+      | some (_, s1) => allocs b s1)
+  | .vec _ w f, s =>
+    match readFlat w s with
+    | none => []
+    | some (bs, s1) => leVal bs :: allocsN (dec f) (allocs f) (leVal bs) s1
+  | .opt _ _ f, s =>
+    match readFlat 1 s with
+    | some ([b], s1) => if b = 1 then allocs f s1 else []
+    | _ => []
+  | .tailIf _ a _ _, s => allocs a s
+  | _, _ => []
+
+/-- the element counts actually present in a value, in wire order. -/
+def lens : Fmt → Val → List Nat
+  | .framed _ f _, v => lens f v
+  | .pair a b, .pair x y => lens a x ++ lens b y
+  | .vec _ _ f, .list vs => vs.length :: (vs.map (lens f)).flatten
+  | .opt _ _ f, .some x => lens f x
+  | .tailIf _ a _ _, .pair x _ => lens a x
+  | _, _ => []
+
 /-! ## Well-typed values -/
 
 /-- all entries are bytes -/
@@ -450,8 +497,12 @@ def wtb : Fmt → Val → Bool
 def strBytes (s : String) : List Nat := s.toList.map Char.toNat
 
 def u8 : Fmt := .uint 1
+def u16 : Fmt := .uint 2
 def u32 : Fmt := .uint 4
 def u64 : Fmt := .uint 8
+
+/-- fixed block of `n` opaque bytes -/
+def bytesN (n : Nat) : Fmt := .raw n
 
 /-- `structs.Vector[T]` (utils/structs/vector.go:86): `u64 len` then the elements. -/
 def vecOf (f : Fmt) : Fmt := .vec false 8 f
